@@ -209,7 +209,7 @@ def run_shard(spec, acc):
             judge(sim, stats, want, acc, kind, "cut_at_every_offset", cuts, {}, cb, stream, undel, True)
         acc.set_exhaustive(f"{kind}: single cut at every offset of a {len(stream)}-byte stream", True)
         return
-    for rep in range(6 if quick else 40):
+    for rep in range(15 if quick else 40):
         settings = {}
         packets, pool = build_stream(kind, dbx, rng, 25 if quick else 60)
         if rep % 3 == 1:
